@@ -173,3 +173,30 @@ for _tag, _pairs, _dom in (('', ('11', '22', '33'), 'the same factor nmult = 1, 
       assumptions=['real-arithmetic reading of the code', 'cos, sin: uninterpreted functions with cos(x)^2 + sin(x)^2 = 1 (and |.| <= 1)',
                    'the derived grid carries the rotation angle of the parent (DbGrid::createCoarse / createRefine pass dbin->getAngles())'],
       stubs=['cos/sin: uninterpreted + Pythagoras axiom (symex libm_axioms); on concrete arguments (validation runs) a rational point of the unit circle within 1e-12 of the libm values'])
+
+
+# ---------------------------------------------------------------- C16.h scalar coordinate accessors with a non-empty 'percent' (harness/C16/scalar.cpp)
+for _nd, _tiers in ((1, ('quick', 'thorough')), (2, ('quick', 'thorough')), (3, ('thorough',))):
+    K('C16.h.%d' % _nd, property='C16', engine='symex', harness='C16/scalar.cpp', entries=['k_scalar_indice', 'k_scalar_rank'] if _nd < 3 else ['k_scalar_indice'],
+      tus=_COORDTUS, defines={'all': {'VF_ND': _nd, 'VF_ROTATED': 0, 'VF_NXMAX': 1024}}, tiers=_tiers,
+      bounds={'quick': 'ndim = %d, unrotated; x0, dx > 0 arbitrary reals; percent[d] an arbitrary real in [-1,1] (non-empty percent argument); nx[d] in [1,%d]; '
+                       'node indices arbitrary ints in [-2^20, 2^20] (indiceToCoordinate) / every node of the grid addressed by its rank (rankToCoordinate); every idim%s' % (_nd, 1024, '' if _nd < 3 else '; ndim = 3: indiceToCoordinate only (the rank entry needs more than 10 minutes of nonlinear integer search)')},
+      timeout_ms={'quick': 120000, 'thorough': 600000}, validate={'quick': 30, 'thorough': 60}, validate_doubles='dyadic',
+      what='Grid::indiceToCoordinate(idim, indice, percent), Grid::rankToCoordinate(idim, rank, percent) (with rankToIndice, Rotation::rotateDirect identity path) against the geometry '
+           'x0 + (i+percent)*dx and against component idim of the vector accessors Grid::indicesToCoordinate(indice, percent) / Grid::rankToCoordinates(rank, percent) '
+           '(indicesToCoordinateInPlace)',
+      out='floating-point rounding; rotated grids (C16.h.rot); the default empty percent (C16.d.nodes)',
+      assumptions=['real-arithmetic reading of the code', 'Grid object is raw storage with _nDim, _nx, _x0, _dx, _rotation._flagRot=false and the work vectors initialised'],
+      stubs=[])
+K('C16.h.rot', property='C16', engine='symex', harness='C16/scalar.cpp', entries=['k_scalar_indice', 'k_scalar_rank'], tus=_ROTTUS,
+  defines={'all': {'VF_ROTATED': 1}},
+  symex_opts=_trig_opts, symex={'libm_exact': {'cos': _cos_native, 'sin': _sin_native}},
+  bounds={'quick': 'ndim = 2; rotation angle an arbitrary real in (-360, 360) degrees; x0, dx > 0 arbitrary reals; percent[d] an arbitrary real in [-1,1] (non-empty percent argument); '
+                   'nx[d] in [1,1024]; node indices arbitrary ints in [-2^20, 2^20] (indiceToCoordinate) / every node of the grid addressed by its rank (rankToCoordinate); every idim'},
+  timeout_ms={'quick': 60000, 'thorough': 600000}, validate={'quick': 20, 'thorough': 40}, validate_doubles='dyadic',
+  what='on a really constructed rotated Grid (as C16.d): Grid::indiceToCoordinate(idim, indice, percent), Grid::rankToCoordinate(idim, rank, percent) against the geometry '
+       'x0 + M ((i+percent) o dx) (M = the direct matrix the Grid reports) and against component idim of Grid::indicesToCoordinate(indice, percent) / Grid::rankToCoordinates(rank, percent)',
+  out='3-D rotations; the sign convention of the angle and the orthogonality of M (C16.d.nodes); floating-point rounding',
+  assumptions=['real-arithmetic reading of the code', 'cos, sin: uninterpreted functions with cos(x)^2 + sin(x)^2 = 1 (and |.| <= 1)',
+               'a matrix within 1e-10 of the identity counts as "not rotated" (the library\'s own flag): the identity is then the matrix in force'],
+  stubs=['cos/sin: uninterpreted + Pythagoras axiom (symex libm_axioms); on concrete arguments (validation runs) a rational point of the unit circle within 1e-12 of the libm values'])
